@@ -100,6 +100,13 @@ def gen(ctx):
             yield Case("CMP", "%s - -" % G.hx(_s), tags=("whitespace-lookalike-twins",), meta=("CMP %s - -" % G.hx(_plain),))
         for _s, _plain in _tw:
             yield Case("CMP", "%s - -" % G.hx(_plain), tags=("whitespace-lookalike-twins",))
+    # comment TEXT is arbitrary UTF-8: a multi-byte character across every byte offset of the source (each is the program below
+    # plus one comment line: same image as the comment-free form)
+    for _off in list(range(24, 64)) + list(range(120, 136)) + list(range(248, 264)) + list(range(504, 520)) + list(range(1016, 1032)):
+        for _s in G.multibyte_comment_sweep(_off, _off + 1):
+            _plain = "(def (Report (x 0))) (when true (:= Report.x %d) (report))" % _off
+            yield Case("CMP", "%s - -" % G.hx(_s), tags=("multibyte-comment",), meta=("CMP %s - -" % G.hx(_plain),))
+            yield Case("CMP", "%s - -" % G.hx(_plain), tags=("multibyte-comment",))
     # several threads compiling at the same time: a compilation shares nothing with the others (but the uid counter)
     for _ in range(60 if ctx.thorough else 6):
         k = rng.choice([2, 4, 8, 16, 32])
